@@ -165,7 +165,9 @@ class _LoopBase:
         d["n"] = wrap_int(self.n) if self.n is not None else None
         d["seq"] = self.seq
         d["old"] = cur().data.get("old")
+        d["ghost"] = cur().data.get("ghost")
         d["entry"] = self.entry_env
+        d["pre"] = self.pre  # snapshots of the heap objects bound to locals when the loop was entered
         return Namespace(d)
 
     def _inv(self, env, i):
@@ -197,6 +199,7 @@ class _LoopBase:
             # an empty list literal that the loop fills: from here on an array-backed sequence
             q = sp.fresh(c.fresh_name(f"L{self.k}.{name}"))
             sym.mark_born(q)
+            c.data.setdefault("havocked", set()).add(id(q))
             return q
         if hasattr(value, "__havoc__") and sp is None:
             value.__havoc__(f"L{self.k}.{name}")
@@ -211,7 +214,10 @@ class _LoopBase:
                                   "declare its type in the loop contract")
             raise Unsupported(f"loop {self.k}: cannot havoc local {name!r} of type {type(value).__name__}; "
                               "declare its type in the loop contract")
-        return sp.fresh(c.fresh_name(f"L{self.k}.{name}"))
+        new = sp.fresh(c.fresh_name(f"L{self.k}.{name}"))
+        c.data.setdefault("havocked", set()).add(id(new))
+        c.data.setdefault("keepalive", []).append(new)
+        return new
 
     def check_frame(self):
         """Every heap write in the body must hit an object that was havocked at the head."""
@@ -227,6 +233,14 @@ class _LoopBase:
 def _born(obj):
     d = getattr(obj, "__dict__", None)
     return d.get("_born", 0) if d is not None else 0
+
+
+def _snap_env(env):
+    from . import engine
+
+    memo = {}
+    return Namespace({k: engine.snapshot(v, memo) for k, v in env.items()
+                      if isinstance(v, (SymObj, SymMap, SymSet)) or hasattr(v, "__snapshot__")})
 
 
 def havoc_obj(o: SymObj, fields, prefix):
@@ -264,6 +278,7 @@ class ForLoop(_LoopBase):
         super().__init__(rt, k, env, names)
         it = sym.resolve(it)
         self.entry_env = Namespace({kk: vv for kk, vv in env.items() if kk != "__vc__"})
+        self.pre = _snap_env(env)
         q = as_symseq(it)
         if q is None:
             self.concrete = it
@@ -289,7 +304,9 @@ class ForLoop(_LoopBase):
             it = c.fresh(f"loop{self.k}.i", INT)
             c.pc.append(tm.And(tm.Le(tm.mk_int(0), it), tm.Lt(it, self.n)))
             self.i = it
-            yield self.seq.elem(it)
+            self.current = self.seq.elem(it)
+            c.data.setdefault("loops", {})[self.k] = self
+            yield self.current
             raise Unsupported(f"loop {self.k}: body fell through without reaching end_body")
         self.mode = "exit"
         self.i = self.n
@@ -313,6 +330,7 @@ class WhileLoop(_LoopBase):
         super().__init__(rt, k, env, names)
         self.sym = True
         self.entry_env = Namespace({kk: vv for kk, vv in env.items() if kk != "__vc__"})
+        self.pre = _snap_env(env)
         self.first = True
         c = cur()
         c.prove(f"loop{k}.entry", self._inv(env, 0), kind="loop")
@@ -397,6 +415,54 @@ class RT:
             raise Unsupported("`in` on a symbolic sequence")
         return a in b
 
+    # conditional expressions: merged without a decision when both branches are effect free
+    def ite(self, c, fa, fb):
+        if not is_symbolic(c) and not hasattr(c, "__symtruth__"):
+            return fa() if c else fb()
+        ctx = cur()
+        ct = B(c)
+        if ct.is_lit:
+            return fa() if tm.litval(ct) else fb()
+        kn = ctx.known.get(ct.s)
+        if kn is not None:
+            return fa() if kn else fb()
+        marks = (len(ctx.pc), len(ctx.obligations), len(ctx.trace), len(ctx.writes), dict(ctx.counters),
+                 dict(ctx.known))
+
+        def spec(f, guard):
+            n0 = len(ctx.pc)
+            ctx.nofork += 1
+            try:
+                v = f()
+            finally:
+                ctx.nofork -= 1
+            if len(ctx.obligations) != marks[1] or len(ctx.writes) != marks[3] or any(
+                    e.kind not in ("call", "await", "inline") for e in ctx.trace[marks[2]:]):
+                raise sym.Speculation()
+            facts = ctx.pc[n0:]
+            del ctx.pc[n0:]
+            for f_ in facts:
+                ctx.pc.append(tm.Implies(guard, f_))
+            return v
+
+        try:
+            a = spec(fa, ct)
+            b = spec(fb, tm.Not(ct))
+            m = merge_values(ct, a, b)
+            if m is not NotImplemented:
+                return m
+        except sym.Speculation:
+            pass
+        # fall back to a real decision
+        if len(ctx.writes) != marks[3]:
+            raise Unsupported("conditional expression with heap effects in a branch")
+        del ctx.pc[marks[0]:]
+        del ctx.obligations[marks[1]:]
+        del ctx.trace[marks[2]:]
+        ctx.counters = marks[4]
+        ctx.known = marks[5]
+        return fa() if ctx.fork(ct) else fb()
+
     # strings
     def fmt(self, value, conversion, spec):
         value = sym.resolve(value) if isinstance(value, SymOpt) else value
@@ -427,6 +493,22 @@ class RT:
         f = c.decls.fun(f"{what}_" + "".join("s" if t.sort == STR else "i" for t in ts),
                         [t.sort for t in ts], STR)
         return wrap_str(f(*ts))
+
+    def join(self, sep, parts):
+        """`sep.join(parts)` (also used for os.path.join-like methods of other objects)."""
+        if not isinstance(sep, (str, SymStr)):
+            return sep.join(parts)
+        if isinstance(parts, SymSeq):
+            return self.opaque_str("join")
+        parts = builtins.list(parts)
+        if not is_symbolic(sep) and not any(is_symbolic(p) for p in parts):
+            return sep.join(parts)
+        out = []
+        for k, p in enumerate(parts):
+            if k:
+                out.append(S(sep))
+            out.append(S(p))
+        return wrap_str(tm.Concat(*out)) if out else ""
 
     def fstr(self, parts):
         if all(isinstance(p, str) for p in parts):
@@ -480,6 +562,29 @@ class RT:
             mq = SymSeq(lambda i: f(q.elem(i)), q.length, name=f"map({q.name})")
             mq.mapped = True
             return mq
+        if kind in ("list", "gen"):
+            # a filtered (and mapped) sequence: unknown length, every element comes from a source
+            # position that satisfies the condition (completeness of the filter is not modelled)
+            c = cur()
+            n = c.fresh(c.fresh_name("filtered.len"), INT)
+            c.pc.append(tm.And(tm.Ge(n, tm.mk_int(0)), tm.Le(n, q.length)))
+            pos = c.fresh(c.fresh_name("filtered.pos"), tm.arr(INT, INT))
+
+            def elem(i, q=q, pos=pos, f=f, cond=cond):
+                j = tm.Select(pos, i, INT)
+                c2 = cur()
+                c2.pc.append(tm.And(tm.Le(tm.mk_int(0), j), tm.Lt(j, q.length)))
+                x = q.elem(j)
+                c2.pc.append(B(cond(x)))
+                return f(x)
+
+            fq = SymSeq(elem, n, name=f"filter({q.name})")
+            fq.source = q
+            return fq
+        if kind == "set":
+            return _set_comp(f, q, cond)
+        if kind == "dict":
+            return _dict_comp(f, q, cond)
         hook = cur().data.get("comp_hook")
         if hook is not None:
             r = hook(kind, f, q, cond)
@@ -550,6 +655,146 @@ def _sym_set_from(items):
     raise Unsupported("set of symbolic elements")
 
 
+def merge_values(c, a, b):
+    """The value `a if c else b` as one symbolic value, or NotImplemented."""
+    if a is b:
+        return a
+    if a is None and b is None:
+        return None
+    if a is None or b is None or isinstance(a, SymOpt) or isinstance(b, SymOpt):
+        an = a.isnone if isinstance(a, SymOpt) else tm.mk_bool(a is None)
+        bn = b.isnone if isinstance(b, SymOpt) else tm.mk_bool(b is None)
+        ap = a.payload if isinstance(a, SymOpt) else a
+        bp = b.payload if isinstance(b, SymOpt) else b
+        if ap is None:
+            pay = bp
+        elif bp is None:
+            pay = ap
+        else:
+            pay = merge_values(c, ap, bp)
+            if pay is NotImplemented:
+                return NotImplemented
+        return SymOpt(tm.Ite(c, an, bn), pay)
+    if isinstance(a, (bool, SymBool)) and isinstance(b, (bool, SymBool)):
+        return wrap_bool(tm.Ite(c, B(a), B(b)))
+    if isinstance(a, SymEnum) or isinstance(b, SymEnum) or (isinstance(a, enum.IntEnum) and isinstance(b, enum.IntEnum)):
+        cls = a.cls if isinstance(a, SymEnum) else type(a)
+        clsb = b.cls if isinstance(b, SymEnum) else type(b)
+        if cls is not clsb:
+            return NotImplemented
+        return sym.wrap_enum(cls, tm.Ite(c, I(a), I(b)))
+    if isinstance(a, (int, SymInt)) and isinstance(b, (int, SymInt)):
+        return wrap_int(tm.Ite(c, I(a), I(b)))
+    if isinstance(a, (str, SymStr)) and isinstance(b, (str, SymStr)):
+        t = tm.Ite(c, S(a), S(b))
+        for x in (a, b):
+            if isinstance(x, SymStr) and type(x) is not SymStr:
+                return type(x)(t)
+        return wrap_str(t)
+    if isinstance(a, (bytes, SymBytes)) and isinstance(b, (bytes, SymBytes)):
+        return sym.wrap_bytes(tm.Ite(c, S(a), S(b)))
+    if isinstance(a, sym.SymFlag) or isinstance(b, sym.SymFlag) or (isinstance(a, enum.Flag) and isinstance(b, enum.Flag)):
+        cls = a.cls if isinstance(a, sym.SymFlag) else type(a)
+        fa_, fb_ = sym.SymFlag.of(cls, a), sym.SymFlag.of(cls, b)
+        return sym.wrap_flag(cls, {m: tm.Ite(c, fa_.bits[m], fb_.bits[m]) for m in fa_.bits})
+    if isinstance(a, SymObj) and isinstance(b, SymObj) and a._cls is b._cls and a._frozen and b._frozen \
+            and set(a._fields) == set(b._fields):
+        fields = {}
+        for k in a._fields:
+            m = merge_values(c, a._fields[k], b._fields[k])
+            if m is NotImplemented:
+                return NotImplemented
+            fields[k] = m
+        return SymObj(a._cls, fields, name=a._name, frozen=True, eq_fields=a._eq_fields)
+    if isinstance(a, sym.SymOpaque) and isinstance(b, sym.SymOpaque) and a.t.sort == b.t.sort:
+        return sym.SymOpaque(tm.Ite(c, a.t, b.t))
+    return NotImplemented
+
+
+def _probe_spec(v):
+    sp = ty.spec_of_value(v)
+    if sp is None and isinstance(v, sym.SymObj):
+        from . import engine
+
+        sp = engine.CLASS_SPECS.get(v._cls)
+    return sp
+
+
+def _set_comp(f, q, cond):
+    """{f(x) for x in q if cond(x)}: a fresh set; membership of a key implies a witness position."""
+    c = cur()
+    j0 = c.fresh(c.fresh_name("setcomp.probe"), INT)
+    n_pc = len(c.pc)
+    sample = f(q.elem(j0))
+    del c.pc[n_pc:]
+    ksp = _probe_spec(sample)
+    if ksp is None or ksp.scalar_sort is None:
+        raise Unsupported("set comprehension with elements of unknown sort")
+    if isinstance(sample, sym.SymStr) and type(sample) is not sym.SymStr:
+        kwrap = type(sample)
+        ksp2 = ksp
+        ksp = type("PS", (type(ksp),), dict(wrap=lambda self, t: kwrap(t), fresh=lambda self, n: kwrap(cur().fresh(n, STR))))()
+    st = ty.SetOf(ksp).fresh(c.fresh_name("setcomp"))
+    wit = c.decls.fun(c.fresh_name("setcomp.witness"), [ksp.scalar_sort], INT)
+
+    def fact(kt, q=q, f=f, cond=cond, has=st.has):
+        j = wit(kt)
+        c2 = cur()
+        n0 = len(c2.pc)
+        x = q.elem(j)
+        val = f(x)
+        side = c2.pc[n0:]
+        del c2.pc[n0:]
+        body = [tm.Le(tm.mk_int(0), j), tm.Lt(j, q.length), tm.Eq(ksp.term(val), kt)] + side
+        if cond is not None:
+            n1 = len(c2.pc)
+            cv = B(cond(x))
+            body += c2.pc[n1:]
+            del c2.pc[n1:]
+            body.append(cv)
+        return tm.Implies(tm.Select(has, kt, BOOL), tm.And(*body))
+
+    st.point_facts.append(fact)
+    sym.mark_born(st)
+    return st
+
+
+def _dict_comp(f, q, cond):
+    """{k(x): v(x) for x in q}: a fresh map; a present key has a witness position whose pair it holds."""
+    c = cur()
+    j0 = c.fresh(c.fresh_name("dictcomp.probe"), INT)
+    n_pc = len(c.pc)
+    forks = len(c.taken)
+    k0, v0 = f(q.elem(j0))
+    del c.pc[n_pc:]
+    if len(c.taken) != forks:
+        raise Unsupported("dict comprehension whose element expression branches on a symbolic condition; "
+                          "supply a comp_hook in the contract")
+    ksp, vsp = _probe_spec(k0), _probe_spec(v0)
+    if ksp is None or vsp is None:
+        raise Unsupported("dict comprehension with unknown key or value sort")
+    m = ty.MapOf(ksp, vsp).fresh(c.fresh_name("dictcomp"))
+    m.value_invariant = None
+    wit = c.decls.fun(c.fresh_name("dictcomp.witness"), [ksp.scalar_sort], INT)
+
+    def fact(kt, q=q, f=f, cond=cond, m=m, has=m.has, state=m.state):
+        j = wit(kt)
+        c2 = cur()
+        n0 = len(c2.pc)
+        x = q.elem(j)
+        kk, vv = f(x)
+        side = c2.pc[n0:]
+        del c2.pc[n0:]
+        stored = vsp.arr_select(state, kt)
+        body = [tm.Le(tm.mk_int(0), j), tm.Lt(j, q.length), tm.Eq(ksp.term(kk), kt),
+                B(sym.sym_eq_val(stored, vv))] + side
+        return tm.Implies(tm.Select(has, kt, BOOL), tm.And(*body))
+
+    m.point_facts.append(fact)
+    sym.mark_born(m)
+    return m
+
+
 # --------------------------------------------------------------------------- builtins
 
 
@@ -565,10 +810,23 @@ def v_len(x):
 
 def v_sorted(x, *, key=None, reverse=False):
     x = sym.resolve(x)
+    if isinstance(x, SymSeq) and not getattr(x, "sorted", False) or (
+            isinstance(x, (SymMap, SymSet, SymKeys, SymItems, SymSeq)) and (key is not None or reverse)):
+        # some permutation of the elements (the order itself is not modelled)
+        src = as_symseq(x)
+        c = cur()
+        perm = c.fresh(c.fresh_name("perm"), tm.arr(INT, INT))
+
+        def pelem(i, src=src, perm=perm):
+            j = tm.Select(perm, i, INT)
+            cur().pc.append(tm.And(tm.Le(tm.mk_int(0), j), tm.Lt(j, src.length)))
+            return src.elem(j)
+
+        pq = ty.SeqOf(ty.Int).empty() if False else SymSeq(pelem, src.length, name=f"sorted({src.name})")
+        pq.source = src
+        return pq
     q = as_symseq(x, sorted_=True) if isinstance(x, (SymMap, SymSet, SymKeys, SymItems, SymSeq)) else None
     if q is not None:
-        if key is not None or reverse:
-            raise Unsupported("sorted() of a symbolic collection with key/reverse")
         return q
     x = list(x)
     if builtins.len(x) <= 1:
@@ -671,6 +929,8 @@ def v_max(*args, **kw):
 
 
 def v_any(it):
+    if hasattr(it, "__symany__"):
+        return it.__symany__()
     if isinstance(it, SymSeq):
         # over-approximation: the truth value of any()/all() over a symbolic sequence is unconstrained
         c = cur()
@@ -731,6 +991,32 @@ def v_list(*a):
 
 def v_print(*a, **k):
     return None
+
+
+class EnumProxy:
+    """An IntEnum class as seen from transformed code: calling it on a symbolic integer gives a
+    symbolic member (the value is assumed to be in range: CHECK constraints of the schema)."""
+
+    def __init__(self, real):
+        self.__vc_real__ = real
+        self.__name__ = real.__name__
+
+    def __call__(self, v):
+        v = sym.resolve(v)
+        if isinstance(v, (SymInt, SymEnum)):
+            t = I(v)
+            cur().pc.append(tm.Or(*[tm.Eq(t, tm.mk_int(int(m.value))) for m in self.__vc_real__]))
+            return sym.wrap_enum(self.__vc_real__, t)
+        return self.__vc_real__(v)
+
+    def __getattr__(self, name):
+        return getattr(self.__vc_real__, name)
+
+    def __iter__(self):
+        return iter(self.__vc_real__)
+
+    def __getitem__(self, k):
+        return self.__vc_real__[k]
 
 
 class _NoLog:
